@@ -15,8 +15,10 @@ THEOREMS = [
     "C12_tree_reduce",
     "C12_ivector_partition_independent",
     "C12_order_and_isolation",
+    "C12_exactly_once",
+    "C12_dropped_partition_ignored",
 ]
-CORR_OPS = ["prepare_dask_input:classes", "tree_reduce:sum", "sched_check:bag_graphs", "train:bag_eq_list"]
+CORR_OPS = ["prepare_dask_input:classes", "tree_reduce:sum", "sched_check:bag_graphs", "sched_check:exactly_once", "train:bag_eq_list"]
 RULE = ("ISV / JFA / i-vector training from a Dask bag of statistics vs the in-memory list, for every number of partitions 1..N (odd and "
         "even: both branches of the pairwise reduction), unsorted labels, partitions mixing classes, and executors (synchronous, seeded random "
         "topological orders, cloudpickle-isolated); the regrouping and the pairwise reduction are also run in the model on the recorded "
@@ -31,6 +33,10 @@ def scenario(ctx, i, kind=None):
     sc = fagen.fa_scenario(r, ctx.tier, jfa=(kind == "jfa"), sessions=1)
     K = int(r.integers(2, 5))
     n = int(r.integers(K + 1, 11))
+    many = None
+    if r.random() < 0.25:  # a longer bag cut into many partitions (5 .. 40, exactly: n is a multiple of the partition count)
+        many = int(r.integers(5, 41))
+        n = many * int(r.integers(1, 3))
     labels = np.concatenate([np.arange(K), r.integers(0, K, n - K)])
     labels = labels[r.permutation(n)]
     sts = [fagen.rand_stat(r, sc["C"], sc["D"], sc["m"], sc["v"]) for _ in range(n)]
@@ -43,7 +49,7 @@ def scenario(ctx, i, kind=None):
             s["f"][c0] = 0.0
             s["s"][c0] = 0.0
     first = [int(a) for a in labels[r.permutation(n)]] if kind != "ivector" and r.random() < 0.3 else None
-    sc.update(first_labels=first, kind=kind, labels=[int(a) for a in labels], K=K, stats=sts, nparts=int(r.integers(1, n + 1)), iters=int(r.integers(1, 3)), R=int(r.integers(1, 3)), seed=int(r.integers(0, 10**6)))
+    sc.update(first_labels=first, kind=kind, labels=[int(a) for a in labels], K=K, stats=sts, nparts=many or int(r.integers(1, n + 1)), many=bool(many), iters=int(r.integers(1, 3)), R=int(r.integers(1, 3)), seed=int(r.integers(0, 10**6)))
     return sc
 
 
@@ -167,6 +173,40 @@ def correspondence(ctx):
             ctx.count("graphs-checked")
             if not (o["disciplined"] and o["isolation_ok"]):
                 bad.append({"op": "sched_check:bag_graphs", "input": inp, "graph": m_, "model": o})
+        # reduction shape: every partition's task enters the final task along exactly one path (C12_exactly_once)
+        for g in rec.graphs:
+            l2, m2 = sched.exactly_once_lines(g, WORKER)
+            if not l2:
+                continue
+            ctx.count("graphs-checked:exactly-once")
+            v = sched.exactly_once_verdict(m2, core.drive(l2))
+            if v:
+                bad.append({"op": "sched_check:exactly_once", "input": inp, "graph": v})
+                break
+    # (4) the reduction shape for every partition count 1 .. 24 (thorough: .. 80) of an i-vector bag
+    base = scenario(ctx, 2, kind="ivector")
+    top = 24 if ctx.tier == "quick" else 80
+    pool = [fagen.rand_stat(ctx.rng, base["C"], base["D"], base["m"], base["v"]) for _ in range(top)]
+    for s_ in pool:
+        s_["n"] = np.maximum(s_["n"], 0.05)
+        s_["s"] = (np.asarray(base["v"]) + (np.asarray(s_["f"]) / s_["n"][:, None]) ** 2) * s_["n"][:, None]
+    for p_ in range(1, top + 1):
+        sc = dict(base, stats=pool[:p_], labels=[0] * p_, nparts=p_, iters=1, many=True)
+        rec = sched.RecordingScheduler()
+        got = core.impl(lambda: train(sc, True, rec))
+        ctx.count("exactly-once:partition-counts")
+        ctx.case(["eo", p_], nontrivial=p_ >= 2)
+        if isinstance(got, core.ImplError):
+            bad.append({"op": "train:bag_eq_list", "input": {"kind": "ivector", "nparts": p_}, "impl": repr(got)})
+            break
+        for g in rec.graphs:
+            l2, m2 = sched.exactly_once_lines(g, WORKER)
+            v = sched.exactly_once_verdict(m2, core.drive(l2), {"e_step": p_}) if l2 else None
+            if v:
+                bad.append({"op": "sched_check:exactly_once", "input": {"kind": "ivector", "nparts": p_, "statistics": p_}, "graph": v})
+                break
+        if bad and bad[-1]["op"] == "sched_check:exactly_once":
+            break
     return bad
 
 
@@ -180,7 +220,7 @@ def oracle(sc, seeds, processes=None):
     for s in seeds:
         runs += [(f"random-order seed {s}", sched.OrderScheduler(s, False)), (f"random-order seed {s}, isolated", sched.OrderScheduler(s, True))]
     for name, sch in runs:
-        got = core.impl(lambda: train(sc, True, sch))
+        got = core.impl(lambda: train(sc, True, sch), _slow=10.0 if sch == "processes" else 1.0)
         if isinstance(got, core.ImplError):
             return {"sig": f"bag-training-raises:{sc['kind']}", "what": f"{sc['kind']} from a bag of {len(sc['stats'])} statistics in {sc['nparts']} partitions under {name}: {got!r}", "executor": name}
         if not same(got, ref):
@@ -189,11 +229,33 @@ def oracle(sc, seeds, processes=None):
     return None
 
 
+def sweep(ctx, fails, seen):
+    """every partition count 1 .. 40 (thorough: .. 140, so that the later levels of a reduction tree also see every width):
+    the i-vector fit of a bag of p one-statistic partitions against the fit of the same list"""
+    base = scenario(ctx, 2, kind="ivector")
+    r = ctx.rng
+    top = 40 if ctx.tier == "quick" else 140
+    pool = [fagen.rand_stat(r, base["C"], base["D"], base["m"], base["v"]) for _ in range(top)]
+    for s in pool:
+        s["n"] = np.maximum(s["n"], 0.05)
+        s["s"] = (np.asarray(base["v"]) + (np.asarray(s["f"]) / s["n"][:, None]) ** 2) * s["n"][:, None]
+    for p_ in range(1, top + 1):
+        sc = dict(base, stats=pool[:p_], labels=[0] * p_, nparts=p_, iters=1, many=True)
+        ctx.count("search:sweep-partition-counts")
+        ctx.case(["sweep", p_], nontrivial=p_ >= 2)
+        f = oracle(sc, [], processes=False)
+        if f and f["sig"] not in seen:
+            seen.add(f["sig"])
+            f["input"] = {k: sc[k] for k in ("kind", "C", "D", "rU", "rV", "jfa", "w", "m", "v", "U", "V", "Dd", "stats", "labels", "first_labels", "K", "nparts", "iters", "R", "seed")}
+            fails.append(f)
+
+
 def search(ctx):
     fails, seen = [], set()
+    sweep(ctx, fails, seen)
     for i in range(ctx.budget(12, 120)):
         sc = scenario(ctx, i + 1)
-        if i % 2:
+        if i % 2 and not sc.get("many"):
             sc["nparts"] = 1 + (i // 2) % len(sc["stats"])  # sweep the partition counts, odd and even
         ctx.count(f"search:{sc['kind']}:nparts={sc['nparts']}")
         ctx.case(["s", sc["kind"], sc["labels"], sc["nparts"]], nontrivial=sc["nparts"] >= 2)
